@@ -529,6 +529,8 @@ class HGroup:
             x = [V.dyadic(r, -50, 50)]; xc = [V.dyadic(r, -50, 50)]
         elif self.cls == "unit":
             x, xc = unit(r, 3), unit(r, 3)
+            if r.random() < 0.15:
+                xc = [-a for a in x]        # a restraint centred exactly opposite to the value: the force must stay finite
         elif self.cls == "quat":
             x, xc = unit(r, 4), unit(r, 4)
         else:
@@ -576,6 +578,9 @@ def oracle_hgroup(g, impl, run):
         return
     E, F = outs[0][0], outs[0][1:]
     what = "harmonic restraint (k=%r, width=%r) on %s%s centred at %r, value %r" % (g.k, g.w, g.kind, " (wrapAround %r)" % g.c if g.P else "", g.xc, g.x)
+    if not all(math.isfinite(t) for t in outs[0]):
+        run.violation("restraint:%s:finite" % sigk, "%s: energy %r, force %r are not finite" % (what, E, F), rep)
+        return
     want = 0.5 * g.k / (g.w * g.w) * py_dist2(g.cls, g.P, g.x, g.xc)
     if not close(E, want, 1e-8):
         run.violation("restraint:%s:energy" % sigk, "%s: energy %r, but 0.5 k/w^2 times the squared distance of the variable's metric is %r" % (what, E, want), rep)
@@ -1048,10 +1053,7 @@ def check(run):
         run.count(l, True)
         run.dist("uv-finite")
         o = parse(impl[uvoff + i])
-        wv = [float.fromhex(t) for t in l.split()[1:]]
-        antipodal = sum(a * b for a, b in zip(wv[:3], wv[3:])) < -1 + 1e-12      # the documented singular geometry of the gradient
-        if o is None or len(o) != 4 or not math.isfinite(o[0]) or not (-1e-12 <= o[0] <= math.pi ** 2 * (1 + 1e-12)) or \
-           (not antipodal and not all(math.isfinite(t) for t in o)):
+        if o is None or len(o) != 4 or not all(math.isfinite(t) for t in o) or not (-1e-12 <= o[0] <= math.pi ** 2 * (1 + 1e-12)):
             run.violation("metric:UV:finite", "dist2 / gradient between the unit vectors of %s is not finite or outside [0, pi^2]: %s" % (l, impl[uvoff + i]),
                           {"kind": "unit", "lines": [l], "impl": [impl[uvoff + i]]})
     for g in omgroups:
